@@ -24,6 +24,7 @@ def run(ctx):
     ctx.notes['derived_circuit_behaviours'] = len(pair)
     ctx.notes['deviations_detected_by'] = {d: ac.vacuity(ctx, CALLS, d) for d in ('UpdateVarNoCopy', 'ApplyWritesVariations')}
     ctx.notes['deviations_detected_by']['UpdateVarInPlaceWhenPrivate'] = ac.vacuity(ctx, ac.PAIR_CALLS, 'UpdateVarInPlaceWhenPrivate', maxlen=4)
+    ctx.notes['deviations_detected_by']['DerivedSharesEdgeDicts'] = ac.vacuity(ctx, ac.PAIR_CALLS, 'DerivedSharesEdgeDicts', maxlen=3)
     behs = [b for b in behs if any(c['a'] in ('update_var', 'update_edge', 'compile_nv') for c in b['calls'])]
     ac.judge_all(ctx, behs, 'compiled model after overrides', cap=2600 if ctx.tier == "quick" else 30000, always=pair)
     for b in behs[len(behs) // 2: len(behs) // 2 + 2]:
